@@ -213,6 +213,18 @@ class World:
         return tuple(op)
 
     def detmap(self, key):
+        j = self.spec.get("detmap_jitter")
+        if j:
+            # the map is built from its OWN coordinate array: the atoms' positions displaced by less than the rounding precision
+            # (a negative jitter turns a zero coordinate into -0.0 after rounding)
+            from pulser.register.weight_maps import DetuningMap
+
+            import numpy as np
+
+            qs = list(self.detmaps[key])
+            pos = [np.asarray(self.register.qubits[q].as_array() if hasattr(self.register.qubits[q], "as_array") else self.register.qubits[q],
+                              dtype=float) + j for q in qs]
+            return DetuningMap(pos, [self.detmaps[key][q] for q in qs])
         return self.register.define_detuning_map(dict(self.detmaps[key]))
 
     def fresh(self, apply_prefix: bool = True):
